@@ -80,12 +80,12 @@ fn start_run<P: Pad>(reset: &Value) {
 
 // ------------------------------------------------------------------ random mode
 
-fn random_run<P: Pad>(seed: u64, run: u64, ops: usize, ns: u32, np: u32, nw: u32, faultp: f64, maxobjs: u32, auto: bool) -> Vec<String> {
+fn random_run<P: Pad>(seed: u64, run: u64, ops: usize, ns: u32, np: u32, nw: u32, faultp: f64, maxobjs: u32, auto: bool, clean: bool) -> Vec<String> {
     let reset = reset_event(run, ns, np, nw, auto);
     start_run::<P>(&reset);
     director::set(director::new_random(
         seed.wrapping_mul(0x9E37_79B9).wrapping_add(run),
-        director::RandomCfg { max_objs: maxobjs, fault_p: faultp, max_faults: if faultp > 0.0 { 3 } else { 0 }, cb_act_p: 0.45, weak: cfg!(feature = "weak"), fin_ops: true, auto },
+        director::RandomCfg { max_objs: maxobjs, fault_p: faultp, max_faults: if faultp > 0.0 { 3 } else { 0 }, cb_act_p: 0.45, weak: cfg!(feature = "weak"), fin_ops: true, auto, clean },
     ));
     for _ in 0..ops {
         let op = world::with_world::<P, _>(|w| {
@@ -127,11 +127,12 @@ fn main_random(args: &[String]) {
     let faultp: f64 = arg_num(args, "--faultp", 0.0);
     let maxobjs: u32 = arg_num(args, "--maxobjs", 10);
     let auto = arg(args, "--auto").map_or(false, |v| v == "1");
+    let clean = arg(args, "--clean").map_or(false, |v| v == "1") && cfg!(feature = "clean");
     let out = arg(args, "--out").expect("--out");
     let mut f = BufWriter::new(std::fs::File::create(&out).expect("create out"));
     let mut total = 0usize;
     for run in 0..runs {
-        let lines = on_fresh_thread(move || random_run::<()>(seed, run, ops, ns, np, nw, faultp, maxobjs, auto));
+        let lines = on_fresh_thread(move || random_run::<()>(seed, run, ops, ns, np, nw, faultp, maxobjs, auto, clean));
         total += lines.len();
         for l in lines {
             writeln!(f, "{}", l).unwrap();
@@ -197,8 +198,19 @@ fn replay_one<P: Pad>(events: Vec<Value>) -> ReplayOutcome {
 fn script_one<P: Pad>(events: Vec<Value>) -> Vec<String> {
     let reset = events[0].clone();
     start_run::<P>(&reset);
+    let mut inops: std::collections::HashMap<String, std::collections::VecDeque<Value>> = Default::default();
     for e in events.iter().skip(1) {
+        if e["e"] == "plan" {
+            // {"e":"plan","in":{"action:1":[ops...],"finalize:2":[...]}}: what callbacks do when they run
+            if let Some(m) = e["in"].as_object() {
+                for (k, v) in m {
+                    inops.insert(k.clone(), v.as_array().cloned().unwrap_or_default().into_iter().collect());
+                }
+            }
+            continue;
+        }
         let mut plan = director::FaultPlan::default();
+        plan.inops = std::mem::take(&mut inops);
         if let Some(a) = e.get("ft").and_then(|v| v.as_array()) {
             plan.trace = Some((a[0].as_u64().unwrap() as u32, a[1].as_u64().unwrap() as u32));
         }
@@ -215,6 +227,8 @@ fn script_one<P: Pad>(events: Vec<Value>) -> Vec<String> {
             break;
         }
         world::exec::<P>(&c);
+        // keep the callback plans that were not consumed
+        inops = director::take_inops();
     }
     director::set(director::Dir::Idle);
     world::uninstall();
